@@ -48,6 +48,20 @@ class VerifInterruptOperation(FloatOperation):
         raise KeyboardInterrupt("verif: deliberate interrupt")
 
 
+class VerifFailingNoMessageOperation(FloatOperation):
+    """Raises ValueError() -- an exception whose str() is empty."""
+
+    def _process_logic(self, data):
+        raise ValueError()
+
+
+class VerifInterruptNoMessageOperation(FloatOperation):
+    """Raises KeyboardInterrupt() -- what a real Ctrl-C raises: no message."""
+
+    def _process_logic(self, data):
+        raise KeyboardInterrupt()
+
+
 class VerifAbort(BaseException):
     """A BaseException subclass that is neither Exception nor KeyboardInterrupt/SystemExit."""
 
@@ -127,3 +141,14 @@ class VerifSumItems(FloatOperation):
 
     def _process_logic(self, data, items):
         return FloatDataType(data.data + float(sum(items)))
+
+
+# ---- a probe whose result shows the Python TYPE of its parameter (computed sweep parameters must arrive as computed) ----
+from semantiva.examples.test_utils import FloatProbe  # noqa: E402
+
+
+class VerifTypeTagProbe(FloatProbe):
+    """Reports the type and repr of parameter `p` (and of the optional `q`)."""
+
+    def _process_logic(self, data, p, q=None):
+        return "%s:%r|%s:%r" % (type(p).__name__, p, type(q).__name__, q)
